@@ -117,6 +117,7 @@ class Explorer:
         self._enum_vals = {}
         self.externals = {}
         self.dump_dir = None
+        self.draw_fn = None       # concrete RNG script (encoder cross-check only)
         self.refute_bound = [8, 24]
         self.refute_timeout_ms = 20000
         self.refute_quick_ms = 8000
